@@ -14,6 +14,11 @@
 (*   PreregBoundToIssuer  the pre-registered client id never travels to an     *)
 (*                     authorization server with another issuer                *)
 (*   NoTokenAfterFailure  TokenSource() changed only if none of those failed   *)
+(* The relation of an issuer identifier to the expected one (`match` of a     *)
+(* served document, `pre` of a request carrying pre-registered credentials)  *)
+(* is one of OAuthFlow!IssRels, computed by the harness from the concrete    *)
+(* strings; OAuthFlow!IssMatch says which relations the property accepts     *)
+(* (near misses such as another port are mismatches; any unknown class is).   *)
 (* "drift" compares with the behaviour of the specification (not a verdict).  *)
 EXTENDS VerifTrace, FiniteSets
 
